@@ -95,7 +95,7 @@ func SwarmConfig(g *simrt.Choices) simrt.Config {
 	c.PreemptP = []float64{0.05, 0, 0.01, 0.2, 0.6}[g.Pick(5)]
 	c.MaxBudget = []int{40, 3, 10, 200}[g.Pick(4)]
 	c.TimeRaceP = []float64{0.02, 0, 0.1}[g.Pick(3)]
-	c.RaceDelta = []time.Duration{5 * time.Millisecond, 100 * time.Microsecond, 50 * time.Millisecond}[g.Pick(3)]
+	c.RaceDelta = []time.Duration{500 * time.Microsecond, 50 * time.Microsecond, 2 * time.Millisecond}[g.Pick(3)]
 	return c
 }
 
@@ -131,7 +131,10 @@ func RunCase(t *testing.T, c Case, trace bool) *Outcome {
 func (x *Exec) Bubble(cfg simrt.Config, driver func(s *simrt.Sim)) *simrt.Sim {
 	cfg.Trace = x.Trace
 	resetGlobals()
-	res := simrt.RunBubble(x.T, cfg, x.Sched, simrt.Mix(x.Case.Seed, 0x6d6170), driver)
+	res := simrt.RunBubble(x.T, cfg, x.Sched, simrt.Mix(x.Case.Seed, 0x6d6170), func(s *simrt.Sim) {
+		driver(s)
+		s.Stop("driver done")
+	})
 	s := res.Sim
 	o := x.Out
 	if s == nil {
